@@ -193,9 +193,9 @@ theorem write_cell_geo (e : Env) (T : Term) (c y : Nat) (nc : Cell) (g : Geo e T
 
 theorem outputChar_geo (e : Env) (T : Term) (c y : Nat) (last : Option Nat) (nc : Cell)
     (g : Good e T ⟨c, y⟩ last) (ok : CellOk cw nc) (hfit : c + nc.width ≤ e.w) :
-    Good e (exec cw T (outputChar e.attrsOf last nc).1) ⟨c + nc.width, y⟩ (outputChar e.attrsOf last nc).2 ∧
-    Frame T (exec cw T (outputChar e.attrsOf last nc).1) ∧
-    (∀ p ∈ (exec cw T (outputChar e.attrsOf last nc).1).log,
+    Good e (exec cw T (outputChar e last nc).1) ⟨c + nc.width, y⟩ (outputChar e last nc).2 ∧
+    Frame T (exec cw T (outputChar e last nc).1) ∧
+    (∀ p ∈ (exec cw T (outputChar e last nc).1).log,
       p ∈ T.log ∨ (p.1 = y ∧ c ≤ p.2 ∧ p.2 < c + nc.width)) := by
   unfold outputChar
   by_cases h1 : last = some nc.style
@@ -204,12 +204,12 @@ theorem outputChar_geo (e : Env) (T : Term) (c y : Nat) (last : Option Nat) (nc 
     obtain ⟨a1, a2, a3, a4⟩ := write_cell_geo cw e T c y nc g.geo ok hfit
     exact ⟨⟨a1, by simp only [SgrOk]; rw [a3]; exact hs⟩, a2, a4⟩
   · simp only [h1, if_false]
-    by_cases h2 : needAttrs e.attrsOf last (e.attrsOf nc.style) = true
+    by_cases h2 : needAttrs e.rawOf last (e.rawOf nc.style) = true
     · simp only [h2, if_true, List.cons_append, List.nil_append, exec_cons, exec_nil]
-      have g' : Geo e (execCmd cw T (.setAttrs (e.attrsOf nc.style))) ⟨c, y⟩ :=
+      have g' : Geo e (execCmd cw T (.setAttrs (e.rawOf nc.style) e.depth (e.attrsOf nc.style))) ⟨c, y⟩ :=
         ⟨g.geo.w, g.geo.wpos, g.geo.row, g.geo.col, g.geo.rowlt, g.geo.aw⟩
       obtain ⟨a1, a2, a3, a4⟩ :=
-        write_cell_geo cw e (execCmd cw T (.setAttrs (e.attrsOf nc.style))) c y nc g' ok hfit
+        write_cell_geo cw e (execCmd cw T (.setAttrs (e.rawOf nc.style) e.depth (e.attrsOf nc.style))) c y nc g' ok hfit
       exact ⟨⟨a1, by simp only [SgrOk]; rw [a3]; rfl⟩, ⟨a2.h, a2.top, a2.scrolled, a2.oob, a2.visible⟩, a4⟩
     · simp only [h2, Bool.false_eq_true, if_false, List.nil_append, exec_cons, exec_nil]
       have hs : T.sgr = e.attrsOf nc.style := by
@@ -219,7 +219,7 @@ theorem outputChar_geo (e : Env) (T : Term) (c y : Nat) (last : Option Nat) (nc 
           simp [needAttrs] at h2
           have := g.sgr
           simp only [SgrOk] at this
-          rw [this, h2.2]
+          rw [this]; simp only [Env.attrsOf, h2.2]
       obtain ⟨a1, a2, a3, a4⟩ := write_cell_geo cw e T c y nc g.geo ok hfit
       exact ⟨⟨a1, by simp only [SgrOk]; rw [a3]; exact hs⟩, a2, a4⟩
 
@@ -256,7 +256,7 @@ theorem colLoop_geo (e : Env) (s : Screen) (y : Nat) (newRow prevRow : List Cell
         rw [exec_append, exec_append, exec_zwe, exec_append]
         obtain ⟨o1, o2, o3⟩ :=
           outputChar_geo cw e (exec cw T m.1) c y m.2 (cellAt newRow c) m1 ok hfw
-        generalize outputChar e.attrsOf m.2 (cellAt newRow c) = o at *
+        generalize outputChar e m.2 (cellAt newRow c) = o at *
         have hy3 : y < (exec cw (exec cw T m.1) o.1).h := by rw [o2.h, m2.h]; exact hy
         have := ok.pos
         obtain ⟨r1, r2, r3⟩ :=
@@ -505,7 +505,7 @@ def cwx : Char → Nat := fun c => if c = '世' then 2 else if c.toNat = 0x301 t
 def exWide : Screen :=
   ⟨[[⟨['世'], 0, 2⟩, ⟨[], 0, 0⟩, ⟨['^', 'A'], 2, 2⟩, ⟨[], 2, 0⟩, ⟨['e', Char.ofNat 0x301], 0, 1⟩, ⟨['z'], 0, 1⟩]],
    [], 1, ⟨5, 0⟩, true⟩
-def exEnvW : Env := ⟨6, 3, false, exAttrs⟩
+def exEnvW : Env := ⟨6, 3, false, fun _ => exAttrs, 0, 8, exEnc⟩
 def exTW : Term := Term.fresh 6 3 0 (fun _ _ => ⟨['#'], Attrs.dflt⟩)
 
 theorem exWide_fit : FitScreen cwx exEnvW exWide := by
@@ -544,9 +544,9 @@ structure RGeo (e : Env) (R : RState) (T : Term) : Prop where
 
 /-- per-operation side conditions for arbitrary cells -/
 def OpOkW (e : Env) (R : RState) (T : Term) : ROp → Prop
-  | .render s _ _ _ => FitScreen cw e s ∧ s.cursor.x < e.w ∧ s.cursor.y < T.h ∧
+  | .render s _ k d _ => FitScreen cw (envFor e k d) s ∧ s.cursor.x < e.w ∧ s.cursor.y < T.h ∧
       min (max s.height (prevHeight R.lastScreen)) e.h ≤ T.h
-  | .finish s _ _ _ => FitScreen cw e s ∧ min s.height e.h < T.h ∧
+  | .finish s _ k d _ => FitScreen cw (envFor e k d) s ∧ min s.height e.h < T.h ∧
       min (max s.height (prevHeight R.lastScreen)) e.h ≤ T.h
   | .erase _ => True
   | .clear => True
@@ -565,6 +565,10 @@ theorem pre_of_rgeo (e : Env) (R : RState) (T : Term) (k : Nat) (inv : RGeo e R 
     · rw [h] at hs; cases hs
     · rw [h] at hs; exact hs
   · rw [inv.last]; exact inv.sgr
+
+theorem rgeo_env (e : Env) (R : RState) (T : Term) (k d : Nat) (inv : RGeo e R T) :
+    RGeo (envFor e k d) R T :=
+  ⟨inv.w, inv.wpos, inv.row, inv.col, inv.posx, inv.rowlt, inv.tot, inv.sgr, inv.last, inv.aw⟩
 
 theorem rgeo_of_erased (e : Env) (R : RState) (T : Term) (la : Bool) (inv : RGeo e R T) :
     RGeo e (R.reset false la).1
@@ -585,27 +589,28 @@ theorem stepR_geo (e : Env) (R : RState) (T : Term) (op : ROp) (inv : RGeo e R T
     RGeo e (stepR cw e R T op).1 (stepR cw e R T op).2 ∧
     (stepR cw e R T op).2.scrolled = T.scrolled ∧ (stepR cw e R T op).2.oob = T.oob := by
   cases op with
-  | render s m k sh =>
+  | render s m k d sh =>
     obtain ⟨hfit, hcx, hcy, hrows⟩ := ok
-    have pre := pre_of_rgeo e R T k inv
-    have hrows' : min (max s.height (prevHeight (R.prevFor e k))) e.h ≤ T.h := by
-      have := prevHeight_prevFor e R k; omega
+    have pre := pre_of_rgeo (envFor e k d) R T k (rgeo_env e R T k d inv)
+    have hrows' : min (max s.height (prevHeight (R.prevFor (envFor e k d) k))) (envFor e k d).h ≤ T.h := by
+      have := prevHeight_prevFor (envFor e k d) R k; simp only [envFor_h]; omega
     obtain ⟨a1, a2, a3, a4, a5, _, _, a8⟩ :=
-      diff_geo cw e s R.pos (R.prevFor e k) R.lastStyle false R.prevWidth T hfit pre hrows'
+      diff_geo cw (envFor e k d) s R.pos (R.prevFor (envFor e k d) k) R.lastStyle false R.prevWidth T hfit pre hrows'
         (by simpa using hcy)
-    obtain ⟨fp1, fp2⟩ : (diff e s R.pos (R.prevFor e k) R.lastStyle false R.prevWidth).pos = s.cursor ∧
-        (diff e s R.pos (R.prevFor e k) R.lastStyle false R.prevWidth).last = none := by
+    simp only [envFor_w, envFor_h, envFor_fs] at a1 a2 a3 a4 a5
+    obtain ⟨fp1, fp2⟩ : (diff (envFor e k d) s R.pos (R.prevFor (envFor e k d) k) R.lastStyle false R.prevWidth).pos = s.cursor ∧
+        (diff (envFor e k d) s R.pos (R.prevFor (envFor e k d) k) R.lastStyle false R.prevWidth).last = none := by
       unfold diff; simp only []
-      have := finish_pos e s (preamble e R.pos (R.prevFor e k) R.lastStyle false R.prevWidth).2 false
+      have := finish_pos (envFor e k d) s (preamble (envFor e k d) R.pos (R.prevFor (envFor e k d) k) R.lastStyle false R.prevWidth).2 false
       simp only [Bool.false_eq_true, if_false] at this
       exact ⟨(this _ _).1, (this _ _).2⟩
-    obtain ⟨a, b, ha, hb, hc⟩ := render_cmds e R s false m k sh
-    have hT : (stepR cw e R T (.render s m k sh)).2 =
-        exec cw T (diff e s R.pos (R.prevFor e k) R.lastStyle false R.prevWidth).cmds := by
+    obtain ⟨a, b, ha, hb, hc⟩ := render_cmds (envFor e k d) R s false m k sh
+    have hT : (stepR cw e R T (.render s m k d sh)).2 =
+        exec cw T (diff (envFor e k d) s R.pos (R.prevFor (envFor e k d) k) R.lastStyle false R.prevWidth).cmds := by
       simp only [stepR, hc, Bool.false_eq_true, if_false, List.append_nil]
       rw [exec_append, exec_inert cw T a ha, exec_append, exec_inert cw _ b hb]
-    have hR : (stepR cw e R T (.render s m k sh)).1 =
-        R.rendered e s m k sh (diff e s R.pos (R.prevFor e k) R.lastStyle false R.prevWidth) := by
+    have hR : (stepR cw e R T (.render s m k d sh)).1 =
+        R.rendered (envFor e k d) s m k sh (diff (envFor e k d) s R.pos (R.prevFor (envFor e k d) k) R.lastStyle false R.prevWidth) := by
       simp [stepR, RState.render]
     rw [hT, hR]
     simp only [RState.rendered, Bool.false_eq_true, if_false, Bool.false_or] at *
@@ -616,27 +621,28 @@ theorem stepR_geo (e : Env) (R : RState) (T : Term) (op : ROp) (inv : RGeo e R T
     · rw [a1, a8.h]; exact hcy
     · rw [a8.h, a8.top]; exact inv.tot
     · intro hf _; rw [a5, hf]; rfl
-  | finish s m k sh =>
+  | finish s m k d sh =>
     obtain ⟨hfit, hcy, hrows⟩ := ok
-    have pre := pre_of_rgeo e R T k inv
-    have hrows' : min (max s.height (prevHeight (R.prevFor e k))) e.h ≤ T.h := by
-      have := prevHeight_prevFor e R k; omega
+    have pre := pre_of_rgeo (envFor e k d) R T k (rgeo_env e R T k d inv)
+    have hrows' : min (max s.height (prevHeight (R.prevFor (envFor e k d) k))) (envFor e k d).h ≤ T.h := by
+      have := prevHeight_prevFor (envFor e k d) R k; simp only [envFor_h]; omega
     obtain ⟨a1, a2, a3, a4, a5, _, _, a8⟩ :=
-      diff_geo cw e s R.pos (R.prevFor e k) R.lastStyle true R.prevWidth T hfit pre hrows'
+      diff_geo cw (envFor e k d) s R.pos (R.prevFor (envFor e k d) k) R.lastStyle true R.prevWidth T hfit pre hrows'
         (by simpa using hcy)
-    obtain ⟨a, b, ha, hb, hc⟩ := render_cmds e R s true m k sh
-    have hT : (stepR cw e R T (.finish s m k sh)).2 =
-        ({ exec cw T (diff e s R.pos (R.prevFor e k) R.lastStyle true R.prevWidth).cmds with
+    simp only [envFor_w, envFor_h, envFor_fs] at a1 a2 a3 a4 a5
+    obtain ⟨a, b, ha, hb, hc⟩ := render_cmds (envFor e k d) R s true m k sh
+    have hT : (stepR cw e R T (.finish s m k d sh)).2 =
+        ({ exec cw T (diff (envFor e k d) s R.pos (R.prevFor (envFor e k d) k) R.lastStyle true R.prevWidth).cmds with
             visible := true } : Term).rebase := by
       simp only [stepR, hc, if_true]
       rw [exec_append, exec_inert cw T a ha, exec_append, exec_append, exec_inert cw _ b hb, exec_reset]
-    have hR : (stepR cw e R T (.finish s m k sh)).1 =
-        ((R.rendered e s m k sh (diff e s R.pos (R.prevFor e k) R.lastStyle true R.prevWidth)).reset
+    have hR : (stepR cw e R T (.finish s m k d sh)).1 =
+        ((R.rendered (envFor e k d) s m k sh (diff (envFor e k d) s R.pos (R.prevFor (envFor e k d) k) R.lastStyle true R.prevWidth)).reset
           false true).1 := by
       simp [stepR, RState.render]
     rw [hT, hR]
-    generalize exec cw T (diff e s R.pos (R.prevFor e k) R.lastStyle true R.prevWidth).cmds = Td at *
-    generalize R.rendered e s m k sh (diff e s R.pos (R.prevFor e k) R.lastStyle true R.prevWidth) = R1 at *
+    generalize exec cw T (diff (envFor e k d) s R.pos (R.prevFor (envFor e k d) k) R.lastStyle true R.prevWidth).cmds = Td at *
+    generalize R.rendered (envFor e k d) s m k sh (diff (envFor e k d) s R.pos (R.prevFor (envFor e k d) k) R.lastStyle true R.prevWidth) = R1 at *
     obtain ⟨p1, p2, p3⟩ := reset_state R1 false true
     simp only [if_true] at a1 a2
     refine ⟨⟨?_, inv.wpos, ?_, ?_, ?_, ?_, ?_, ?_, p3, ?_⟩, ?_, ?_⟩
@@ -721,7 +727,7 @@ theorem exWide2_fit : FitScreen cwx exEnvW exWide2 := by
     rw [this]
     exact fitRow_of_check cwx _ _ _ _ _ (by decide)
 
-def exOpsW : List ROp := [.render exWide false 0 0, .render exWide2 false 0 0, .finish exWide2 false 0 0]
+def exOpsW : List ROp := [.render exWide false 0 8 0, .render exWide2 false 0 8 0, .finish exWide2 false 0 8 0]
 
 /-- `render_seq_geo` is not vacuous: wide screen, incremental render of another wide screen, done -/
 example : (runR cwx exEnvW exR0 exTW exOpsW).2.scrolled = 0 :=
@@ -732,13 +738,13 @@ example : (runR cwx exEnvW exR0 exTW exOpsW).2.scrolled = 0 :=
 
 /-- … and the model computes it: after the incremental render `世` is on columns 1–2 and the cell that
     held the right half of the old `世` … -/
-example : (runR cwx exEnvW exR0 exTW [.render exWide false 0 0, .render exWide2 false 0 0]).2.cells 0 1 =
+example : (runR cwx exEnvW exR0 exTW [.render exWide false 0 8 0, .render exWide2 false 0 8 0]).2.cells 0 1 =
       ⟨['世'], Attrs.dflt⟩ ∧
-    (runR cwx exEnvW exR0 exTW [.render exWide false 0 0, .render exWide2 false 0 0]).2.cells 0 2 =
+    (runR cwx exEnvW exR0 exTW [.render exWide false 0 8 0, .render exWide2 false 0 8 0]).2.cells 0 2 =
       ⟨[], Attrs.dflt⟩ ∧
-    (runR cwx exEnvW exR0 exTW [.render exWide false 0 0, .render exWide2 false 0 0]).2.cells 0 0 =
+    (runR cwx exEnvW exR0 exTW [.render exWide false 0 8 0, .render exWide2 false 0 8 0]).2.cells 0 0 =
       ⟨['q'], Attrs.dflt⟩ ∧
-    (runR cwx exEnvW exR0 exTW [.render exWide false 0 0, .render exWide2 false 0 0]).2.cells 0 5 =
+    (runR cwx exEnvW exR0 exTW [.render exWide false 0 8 0, .render exWide2 false 0 8 0]).2.cells 0 5 =
       TCell.blank := by
   decide
 end Ptk.C06
